@@ -1,4 +1,5 @@
 """C01: exit 0 => every copied regular file is byte-identical to its source; nothing of a prior destination survives."""
+from ..common import rmtree as _rmtree
 import os, shutil, subprocess
 from .. import build, dataplane, dataprop, runner
 from ..common import rng, scratch, log, ToolError
@@ -27,7 +28,7 @@ def big_file_case(ctx, binary):
             os.unlink(dst)
         except OSError:
             pass
-    shutil.rmtree(root, ignore_errors=True)
+    _rmtree(root)
 
 def run(ctx):
     binary = build.xcp()
